@@ -3,15 +3,17 @@
 # changes can be applied and tested while a long check (e.g. a thorough sweep) keeps using the real, unmodified /repo.
 #   lib/nsrun.sh python3 lib/seedtest.py <patch-or-dir> Cxx
 # The copies live under /tmp (clone of the committed state + the harness build directories) and are refreshed on every call.
+# NS=<n> selects another pair of copies (/tmp/repo<n>, /tmp/verif<n>) so that two such runs can go on at the same time.
 set -e
-[ -d /tmp/repo2/.git ] || git clone -q /repo /tmp/repo2
-git -C /tmp/repo2 checkout -q -- . && git -C /tmp/repo2 pull -q
-if [ ! -d /tmp/verif2/.git ]; then
-  git clone -q /verif /tmp/verif2
+NS=${NS:-2}
+[ -d /tmp/repo$NS/.git ] || git clone -q /repo /tmp/repo$NS
+git -C /tmp/repo$NS checkout -q -- . && git -C /tmp/repo$NS pull -q
+if [ ! -d /tmp/verif$NS/.git ]; then
+  git clone -q /verif /tmp/verif$NS
   for d in /verif/harness/target /verif/harness/target-raw_strains /verif/harness/target-raw_strains-sync /verif/harness/target-sync; do
-    [ -d "$d" ] && cp -a "$d" /tmp/verif2/harness/
+    [ -d "$d" ] && cp -a "$d" /tmp/verif$NS/harness/
   done
 fi
-git -C /tmp/verif2 checkout -q -- . && git -C /tmp/verif2 pull -q
-mkdir -p /tmp/verif2/out /tmp/verif2/evidence
-exec unshare -m bash -c 'mount --bind /tmp/repo2 /repo && mount --bind /tmp/verif2 /verif && cd /verif && "$@"' ns "$@"
+git -C /tmp/verif$NS checkout -q -- . && git -C /tmp/verif$NS pull -q
+mkdir -p /tmp/verif$NS/out /tmp/verif$NS/evidence
+exec unshare -m bash -c 'mount --bind /tmp/repo'$NS' /repo && mount --bind /tmp/verif'$NS' /verif && cd /verif && "$@"' ns "$@"
